@@ -146,15 +146,19 @@ def _to_seq(self, a, kind):
     return self.new_box(r) if kind == 'list' else r
   if isinstance(v, IterView) or (isinstance(v, SV) and isinstance(v.sort, (MapOf, SetOf))):
     it = as_iter(self, v)
-    if it.elem_sort is None:
+    rec = getattr(self.spec, 'comp_elem_hint', None)
+    if it.elem_sort is None and rec is None:
       raise OutsideSubset(f'{kind}() of an iterable of tuples')
-    S = SeqOf(it.elem_sort)
+    es = it.elem_sort if it.elem_sort is not None else rec       # tuples become values of the record sort the sidecar names
+    S = SeqOf(es)
     r = S.const(kind)
     k = z3.Int(fresh_name('i'))
     self.assume(S.len(r) == it.length)
-    self.assume(qforall([k], z3.Implies(z3.And(k >= 0, k < it.length), S.get(r, k) == it.at(k).t), patterns=[S.get(r, k)]))
+    at = (lambda t: it.at(t).t) if it.elem_sort is not None else (lambda t: self.coerce(it.at(t), es).t)
+    self.assume(qforall([k], z3.Implies(z3.And(k >= 0, k < it.length), S.get(r, k) == at(k)), patterns=[S.get(r, k)]))
     # reverse-direction trigger: a fact about the k-th source element reaches r[k]
-    self.assume(qforall([k], z3.Implies(z3.And(k >= 0, k < it.length), S.get(r, k) == it.at(k).t), patterns=[it.at(k).t]))
+    if it.elem_sort is not None:
+      self.assume(qforall([k], z3.Implies(z3.And(k >= 0, k < it.length), S.get(r, k) == at(k)), patterns=[at(k)]))
     return self.new_box(SV(S, r)) if kind == 'list' else SV(S, r)
   raise OutsideSubset(f'{kind}({v!r})')
 
